@@ -47,14 +47,16 @@ type ccResult struct {
 	Stuck   string     `json:"stuck,omitempty"`
 }
 
-var ccKinds = []string{"hover", "completion", "references", "definition", "documentSymbol", "semanticTokensFull", "foldingRange"}
+var ccKinds = []string{"hover", "completion", "references", "definition", "documentSymbol", "semanticTokensFull", "foldingRange", "inlineCompletion"}
 
 func ccText(u string, v int) string {
 	acct := "assets:bank"
 	if u != "u1" {
 		acct = "assets:cash"
 	}
-	return fmt.Sprintf("2024-01-01 shop %s\n    %s  %d USD\n    expenses:food\n\n2024-01-02 v%d\n    %s  1 USD\n    equity:open\n", u, acct, v, v, acct)
+	// the last two lines are a header the user has just typed and the empty line below it: inline completion offers the
+	// postings of the payee's earlier transaction there, which carry the version's amount
+	return fmt.Sprintf("2024-01-01 shop %s\n    %s  %d USD\n    expenses:food\n\n2024-01-02 v%d\n    %s  1 USD\n    equity:open\n\n2024-03-01 shop %s\n", u, acct, v, v, acct, u)
 }
 
 type ccJob struct {
@@ -158,7 +160,13 @@ func init() {
 			ask := func(s *session, u protocol.DocumentURI, ln uint32) map[string]string {
 				out := map[string]string{}
 				for _, k := range ccKinds {
-					r, err := callRequest(ctx, s.srv, k, u, ln, 6)
+					l, ch := ln, uint32(6)
+					if k == "inlineCompletion" {
+						if t, ok := s.srv.GetDocument(u); ok {
+							l, ch = uint32(strings.Count(t, "\n")), 0 // the empty line after the header typed last
+						}
+					}
+					r, err := callRequest(ctx, s.srv, k, u, l, ch)
 					e := ""
 					if err != nil {
 						e = err.Error()
